@@ -185,11 +185,16 @@ def engine(rc):
             f = ci.methods.get(mname)
             if f is None:
                 continue
+            # names that hold the engine's own model: `X = self.model[.copy()]` executed while the engine is still bound to it.  The same statement executed after a
+            # re-binding captures the TEMPORARY model (flow-sensitive: maintained by the walk below); restoring from such a name restores nothing.
             saved = set()
-            for n in walk_no_nested(f.node):
-                if isinstance(n, ast.Assign) and isinstance(n.targets[0], ast.Name) and norm(n.value) in ("self.model", "self.model.copy()"):
-                    saved.add(n.targets[0].id)
+            late_saved = set()
             problems = []
+
+            def _save_stmt(st):
+                if isinstance(st, ast.Assign) and len(st.targets) == 1 and isinstance(st.targets[0], ast.Name) and norm(st.value) in ("self.model", "self.model.copy()"):
+                    return st.targets[0].id
+                return None
 
             def walk(stmts, dirty, protected):
                 """dirty: engine currently bound to a foreign model; protected: inside try whose finally restores"""
@@ -215,6 +220,16 @@ def engine(rc):
                     if isinstance(st, (ast.For, ast.While, ast.With)):
                         d, t = walk(st.body, dirty, protected)
                         dirty = dirty or d
+                        continue
+                    sv = _save_stmt(st)
+                    if sv is not None:
+                        if dirty:
+                            saved.discard(sv)
+                            late_saved.add(sv)
+                            problems.append(("save", st, f"`{norm(st, 50)}` captures the model AFTER the engine was re-bound: the later restore from `{sv}` leaves the engine on the temporary model"))
+                        else:
+                            saved.add(sv)
+                            late_saved.discard(sv)
                         continue
                     if _is_restore(st, saved):
                         dirty = False
@@ -421,6 +436,14 @@ def shims(rc):
         if len(calls) < 2 or f.name in ("to_numpy", "copy", "get_compute_backend", "size"):
             continue
         first = f.params[0] if f.params else None
+        # the array handed to the paired operation is the caller's array: a shim never re-binds it (rounding, casting, clipping change the numbers for one or both
+        # backends; `to_numpy`, the only conversion, is not a paired shim)
+        for st in ast.walk(f.node):
+            tg = st.targets if isinstance(st, ast.Assign) else ([st.target] if isinstance(st, ast.AugAssign) else [])
+            for t in tg:
+                if first and isinstance(t, ast.Name) and t.id == first:
+                    rc.fail(f, st, f"compat_fns.{f.name}: the array argument is re-bound before the operation (`{norm(st, 60)}`): the shim changes the caller's numbers",
+                            construct=f"compat_fns.{f.name} rebinds {first}")
 
         def opname(c):
             t = norm(c.func)
@@ -495,6 +518,11 @@ def defuse(rc):
     _sh.defuse_rule(rc, _sh.anchor_files("C16"))
 
 MUTANTS = [
+    dict(kind="break", name="shim-unique-rounds-input", file="pgmpy/utils/compat_fns.py", expect="C16.shims",
+         old="    if isinstance(arr, np.ndarray):\n        return np.unique(", new="    if isinstance(arr, np.ndarray):\n        arr = arr.round(decimals=8)\n        return np.unique("),
+    dict(kind="break", name="restore-from-model-saved-after-rebinding", file="pgmpy/inference/ExactInference.py", expect="C16.engine",
+         old="            orig_model = self.model\n            virt_evidence = self._virtual_evidence(virtual_evidence)\n            try:\n                return self.map_query(",
+         new="            virt_evidence = self._virtual_evidence(virtual_evidence)\n            orig_model = self.model\n            try:\n                return self.map_query("),
     dict(kind="break", name="shim-torch-unique-drops-inverse", file="pgmpy/utils/compat_fns.py", expect="C16.shims",
          old="            arr, return_inverse=return_inverse, return_counts=return_counts, dim=axis", new="            arr, return_counts=return_counts, dim=axis"),
     dict(kind="break", name="shim-torch-ravel-c-order", file="pgmpy/utils/compat_fns.py", expect="C16.shims",
